@@ -11,6 +11,10 @@ F = [
  ("C01", "panic:simple-dns/src/dns/header_buffer.rs:20", "fixed", "b67c5fb", "header_buffer::{id,questions,answers,name_servers,additional_records,has_flags,rcode,opcode} indexed before converting and panicked on buffers shorter than the field (empty buffer; corpus/C01/panic_simple_dns_src_dns_header_buffer_rs_*.json)"),
  ("C01", "panic:simple-dns/src/dns/name.rs:194", "fixed", "a52ec30", "name decoder tested the caller cursor instead of the read cursor: a label reached through a pointer and ending at the last byte indexed out of bounds (corpus/C01/panic_simple_dns_src_dns_name_rs_194.json)"),
  ("C01", "c01:heap", "fixed", "9fa91f3", "Packet::parse pre-allocated Vec::with_capacity(header count): a 166-byte message announcing 65535 records held 2 MB (corpus/C01/c01_heap.json)"),
+ ("C07", "c07:expands-wrong", "fixed", "bc5849c", "OPT TTL carried extended RCODE / VERSION in its two low octets; RFC 6891 puts them in the two high octets (packet with EDNS version 1: a reference decoder read version 0; corpus/C07/opt-ttl-layout.json, corpus/C09/)"),
+ ("C03", "c03:compressed-mismatch", "fixed", "2722a09", "names first written beyond offset 16383 were recorded as compression targets and later pointers to them were truncated to 14 bits: compressed output parsed to different names or not at all (corpus/C03/pointer-beyond-16383*.json)"),
+ ("C04", "c04:cursor-differs-compressed", "fixed", "2ce03a3", "write_compressed_to sought to SeekFrom::End(0) after back-patching RDLENGTH: on pre-filled storage the next record was written after the end of the buffer contents (corpus/C04/prefilled-storage-seek-end.json)"),
+ ("C07", "c07:unwalkable@origin", "fixed", "9ae0a10", "write_compressed_to used absolute stream positions as pointer offsets: a writer starting at offset k>0 emitted pointers off by k (corpus/C07/nonzero-origin.json)"),
  ("C01", "panic:simple-dns/src/dns/rdata/a.rs:22", "fixed", "80de3fc", "every typed RDATA parser and CharacterString::parse sliced without bounds checks (and the character-string bound was off by one): RDLENGTH shorter than the fixed fields, or an inner length overrunning RDLENGTH, panicked (corpus/C01/panic_simple_dns_src_dns_rdata_*.json, corpus/C10/*-overrun.json)"),
 ]
 out = {"_comment": "Genuine defects of balliegojr/simple-dns found by the checks. status=known: not repaired; keyed by the violation signature; reported as KNOWN-FINDING and tolerated so the search continues behind it. status=fixed: repaired by the named 'fix:' commit in /repo; suppresses nothing.",
